@@ -129,7 +129,7 @@ func runC18(c *core.Ctx) {
 	}
 	reps := c.Pick(3, 30)
 	for f := 0; f < 3; f++ {
-		for v := 0; v < 12; v++ {
+		for v := 0; v < 32; v++ {
 			for r := 0; r < reps; r++ {
 				if !mine() {
 					continue
@@ -279,6 +279,8 @@ func c18Build(o *so.Oracle, k c18Case) ([]byte, time.Time, error) {
 	expiry := issue.Add(k.delay)
 	switch k.iiKind {
 	case "":
+		// the same instant in one of the lexical forms of xsd:dateTime (zone offsets, fractions)
+		el.CreateAttr("IssueInstant", lexical(issue, (k.enc+len(k.method)+len(k.trust.Name)+int(k.delay/time.Second))%c02Forms))
 	case "absent":
 		el.RemoveAttr("IssueInstant")
 		expiry = time.Time{}
